@@ -26,7 +26,8 @@
 (* Spec self-test events (not implementation traces): vec = a published    *)
 (* BIP39 vector (mnemonic, passphrase, seed, root xprv), vecpath = a       *)
 (* published BIP32 chain element (seed, path, xprv, xpub), vecaddr = a     *)
-(* published (xpub, address) pair.                                         *)
+(* published (xpub, address) pair.  bip44 = the purpose / coin-type        *)
+(* constants of bits.bips.bip44 and slip44 (the only BIP44 code there is). *)
 (***************************************************************************)
 EXTENDS HDWallet, Secp256k1, Json, IOUtils, TLC
 Trace == JsonDeserialize(IOEnv.TRACE_FILE)
@@ -136,8 +137,11 @@ VecVerdict(e) ==
            One(~mx.ok \/ (mx.ok /\ PathKeys(mx.v, e.path) # Result(<<e.xprv, e.xpub>>)), "vector-path")
       [] e.op = "vecaddr" ->
            One(ApplyP2pkh(P2pkhCall(e.xpub)) # Result(<<e.addr>>), "vector-address")
+      [] e.op = "bip44" ->                                  \* the constants of bits.bips.bip44 / slip44 (ser32)
+           One(e.purpose # Bip44Purpose, "bip44-purpose-constant") \o One(e.btc # Slip44Bitcoin, "slip44-bitcoin-coin-type")
+           \o One(e.test # Slip44Testnet, "slip44-testnet-coin-type")
 
-IsVec(e) == e.op \in {"vec", "vecpath", "vecaddr"}
+IsVec(e) == e.op \in {"vec", "vecpath", "vecaddr", "bip44"}
 
 TInit == /\ h = 1 /\ j = 1 /\ jres = <<>>
          /\ InitWith(IF Len(Trace) >= 1 THEN Trace[1].script ELSE <<>>)
